@@ -268,6 +268,11 @@ class _Continue(_Signal):
     pass
 
 
+class IterVal(ListVal):
+    """An iterator over a known spine: next() consumes from the front; everything else treats it like the list of
+    what is left."""
+
+
 class _NeedMoreChoices(Exception):
     pass
 
@@ -607,20 +612,8 @@ class SymExec:
                 and not any(g.is_async for g in st.value.generators):
             # `return (elt for x in gen() if cond)`: to the caller this function is the generator
             #     for x in gen():  if cond:  yield elt
-            ge = st.value
-            body: List[ast.stmt] = [ast.Expr(value=ast.Yield(value=ge.elt))]
-            for g in reversed(ge.generators):
-                if g.ifs:
-                    test = g.ifs[0] if len(g.ifs) == 1 else ast.BoolOp(op=ast.And(), values=list(g.ifs))
-                    body = [ast.If(test=test, body=body, orelse=[])]
-                body = [ast.For(target=g.target, iter=g.iter, body=body, orelse=[], type_comment=None)]
-            for b_ in body:
-                for n in ast.walk(b_):
-                    if not hasattr(n, 'lineno'):
-                        ast.copy_location(n, st)
-                ast.fix_missing_locations(b_)
             fr.is_gen = True
-            self.exec_block(body, fr)
+            self.exec_block(self._genexp_as_loop(st.value, st), fr)
             raise _Return(('const', None))
         v = self.ev(st.value, fr) if st.value is not None else ('const', None)
         self.emit('return', st, value=v)
@@ -702,6 +695,34 @@ class SymExec:
         if isinstance(it, tuple) and it and it[0] == 'tuple' and len(it) > 1 and \
                 not any(isinstance(x, tuple) and x and x[0] == 'star' for x in it[1:]):
             it = ListVal(list(it[1:]), self.fresh())
+        fit = freeze(it)
+        if isinstance(fit, tuple) and fit[:1] == ('call',) and fit[2] == ('ref', 'builtin', 'iter') and len(fit[3]) == 2 and not fit[4]:
+            # for x in iter(f, sentinel):   ==   while True: x = f(); if x == sentinel: break; ...
+            callee, sentinel = fit[3]
+            lid = self.fresh()
+            for n in _assigned_names(st.body, fr.env):
+                if n in fr.env:
+                    fr.env[n] = ('phi', lid, n, freeze(fr.env[n]))
+            self.ctx.append(('loop', lid, fit, st))
+            try:
+                v = self.call(callee, [], [], st.iter, fr)
+                c = self.compare('is' if sentinel == ('const', None) else '==', v, sentinel, st.iter)
+                self.emit('loop_test', st, cond=('not', freeze(c)))
+                if self.truth(c, st.iter):
+                    exhausted = True
+                else:
+                    exhausted = False
+                    self.assign(st.target, v, fr, st)
+                    try:
+                        self.exec_block(st.body, fr)
+                    except _Continue:
+                        pass
+                    except _Break:
+                        return
+            finally:
+                self.ctx.pop()
+            self.exec_block(st.orelse, fr)
+            return
         if isinstance(it, ListVal) and it.concrete() and len(it.elts) <= 32:
             # unroll over a known spine
             try:
@@ -728,7 +749,7 @@ class SymExec:
         self._summarise_loop(st, fr, lid, it)
 
     def _summarise_loop(self, st, fr, lid, it):
-        assigned = _assigned_names(st.body)
+        assigned = _assigned_names(st.body, fr.env)
         for n in assigned:
             if n in fr.env:
                 fr.env[n] = ('phi', lid, n, freeze(fr.env[n]))
@@ -972,7 +993,7 @@ class SymExec:
             k = self.choose(1 + len(st.handlers), 'try') if st.handlers else 0
             if k > 0:
                 types, h = descr[k - 1]
-                for n in _assigned_names(st.body):
+                for n in _assigned_names(st.body, fr.env):
                     fr.env[n] = ('unknown', 'maybe-assigned-in-try:%s' % n)
                 exc = ('exc', tuple(types), self.fresh())
                 # the subscript reads of the body whose operands are plain names/attributes/constants, as they stand on
@@ -1063,7 +1084,36 @@ class SymExec:
         return None
 
     def st_Match(self, st, fr):
-        raise Unrecognised('match statement in %s' % fr.qual)
+        """match/case over value, singleton, or-, capture and wildcard patterns (with guards), and sequence patterns over a
+        tuple display of known length: the same decisions as the equivalent if/elif chain."""
+        subj = self.ev(st.subject, fr)
+        for case in st.cases:
+            if self._match_pattern(case.pattern, subj, fr, st):
+                if case.guard is not None and not self.truth(self.ev(case.guard, fr), case.guard):
+                    continue
+                self.exec_block(case.body, fr)
+                return
+
+    def _match_pattern(self, pat, subj, fr, st) -> bool:
+        if isinstance(pat, ast.MatchValue):
+            return self.truth(self.compare('==', subj, self.ev(pat.value, fr), pat), pat)
+        if isinstance(pat, ast.MatchSingleton):
+            return self.truth(self.compare('is', subj, ('const', pat.value), pat), pat)
+        if isinstance(pat, ast.MatchOr):
+            return any(self._match_pattern(p_, subj, fr, st) for p_ in pat.patterns)
+        if isinstance(pat, ast.MatchAs):
+            if pat.pattern is not None and not self._match_pattern(pat.pattern, subj, fr, st):
+                return False
+            if pat.name is not None:
+                self.store_name(pat.name, subj, fr, st)
+            return True
+        if isinstance(pat, ast.MatchSequence) and isinstance(subj, tuple) and subj and subj[0] == 'tuple' \
+                and not any(isinstance(p_, ast.MatchStar) for p_ in pat.patterns) \
+                and not any(isinstance(x, tuple) and x and x[0] == 'star' for x in subj[1:]):
+            if len(pat.patterns) != len(subj) - 1:
+                return False
+            return all(self._match_pattern(p_, x, fr, st) for p_, x in zip(pat.patterns, subj[1:]))
+        raise Unrecognised('match pattern %s in %s' % (type(pat).__name__, fr.qual))
 
     # ----------------------------------------------------------- assignments
     def store_name(self, name, v, fr, node):
@@ -1129,7 +1179,14 @@ class SymExec:
         mod, _, var = q.rpartition('.')
         m = self.facts.modules.get(mod)
         res = None
-        if m is not None and var in m.assigns and len(m.assigns[var]) == 1 and isinstance(m.assigns[var][0], ast.Tuple) \
+        node0 = m.assigns[var][0] if m is not None and var in m.assigns and len(m.assigns[var]) == 1 else None
+        as_set = False
+        if isinstance(node0, ast.Call) and isinstance(node0.func, ast.Name) and node0.func.id == 'frozenset' and len(node0.args) == 1 \
+                and not node0.keywords and isinstance(node0.args[0], (ast.Tuple, ast.List, ast.Set)) \
+                and self.facts.resolve_name(m, 'frozenset')[0] == 'builtin':
+            node0 = ast.Tuple(elts=node0.args[0].elts, ctx=ast.Load())      # frozenset((a, b, c)): immutable
+            as_set = True
+        if node0 is not None and isinstance(node0, ast.Tuple) \
                 and not any(isinstance(n, ast.Global) and var in n.names for n in ast.walk(m.tree)):
             def conv(n):
                 if isinstance(n, ast.Constant):
@@ -1138,7 +1195,9 @@ class SymExec:
                     xs = [conv(x) for x in n.elts]
                     return None if any(x is None for x in xs) else ('tuple',) + tuple(xs)
                 return None
-            res = conv(m.assigns[var][0])
+            res = conv(node0)
+            if res is not None and as_set:
+                res = ('set',) + tuple(res[1:])
         cache[q] = res
         return res
 
@@ -1304,8 +1363,8 @@ class SymExec:
     def modvar_table_entry(self, dotted, key):
         """(found, value) for TABLE[key] of a module-level dict display; None when the table is not understood."""
         tab = self.modvar_table(dotted)
-        if tab is None:
-            return None
+        if not tab:
+            return self._registered_table_entry(dotted, key)
         for m, k, v in reversed(tab):
             if k == key and type(k) == type(key):
                 if isinstance(v, ast.Lambda):
@@ -1317,6 +1376,49 @@ class SymExec:
                     return None
                 return (True, self.ref(r))
         return (False, None)
+
+    def _registered_table_entry(self, dotted, key):
+        """A module-level dict that starts empty and is filled while the module is imported (registration calls or
+        decorators), and that no function writes afterwards."""
+        mod, _, var = dotted.rpartition('.')
+        m = self.facts.modules.get(mod)
+        if m is None or self.fi.qual.endswith('.<module>'):
+            return None
+        from . import functab
+        import_only = set(functab.import_time_only_writers(self.facts, mod))
+        for q, fi in self.facts.functions.items():
+            if fi.module is not m or q in import_only or any(q.startswith(o + '.') for o in import_only):
+                continue
+            for n in ast.walk(fi.node):
+                tgt = None
+                if isinstance(n, ast.Subscript) and isinstance(n.ctx, (ast.Store, ast.Del)):
+                    tgt = n.value
+                elif isinstance(n, ast.Call) and isinstance(n.func, ast.Attribute) and n.func.attr in (
+                        'update', 'pop', 'popitem', 'clear', 'setdefault', '__setitem__', '__delitem__'):
+                    tgt = n.func.value
+                elif isinstance(n, ast.AugAssign):
+                    tgt = n.target
+                if isinstance(tgt, ast.Name) and tgt.id == var:
+                    return None          # written after import: not a constant table
+        env = exec_module_body(self.facts, m)
+        tab = env.get(var)
+        if not isinstance(tab, DictVal):
+            return None
+        found = None
+        for it in tab.items:
+            if it[0] == 'dstar':
+                return None
+            k = freeze(it[0])
+            if not is_const(k):
+                return None
+            if k[1] == key and type(k[1]) == type(key):
+                found = it[1]
+        if found is None:
+            return (False, None)
+        fv = freeze(found) if not isinstance(found, Closure) else found
+        if isinstance(fv, tuple) and fv[:2] == ('ref', 'fnraw'):
+            fv = ('ref', 'fn', fv[2])
+        return (True, fv)
 
     def ex_Slice(self, e, fr):
         return ('slice',
@@ -1481,6 +1583,15 @@ class SymExec:
                 return ('const', bool(res))
             except Exception:
                 pass
+        # membership of a constant in a display of constants
+        if op in ('in', 'not in') and is_const(fl) and isinstance(fr_, tuple) and fr_ and fr_[0] in ('tuple', 'set', 'list') \
+                and all(is_const(x) for x in fr_[1:]):
+            try:
+                return ('const', (fl[1] in [x[1] for x in fr_[1:]]) == (op == 'in'))
+            except Exception:
+                pass
+        if op in ('is', 'is not') and fl == fr_ and isinstance(fl, tuple) and fl and fl[0] in ('ref', 'new', 'obj', 'sym'):
+            return ('const', op == 'is')
         # identity of an object created on this path with something that existed before (a module-level object, a class,
         # a function) or with another object created on this path
         if op in ('is', 'is not'):
@@ -1503,7 +1614,8 @@ class SymExec:
                     return ('const', op in ('is', '=='))
                 if isinstance(c[1], (str, bool, int)) and c[1] is not None and set(kinds_) <= {'op', 'none', 'list'}:
                     return ('const', op in ('is not', '!='))
-            elif isinstance(other, tuple) and other and other[0] in ('list', 'dict', 'new', 'closure', 'symlist', 'tuple', 'fstr'):
+            elif isinstance(other, tuple) and other and (other[0] in ('list', 'dict', 'new', 'closure', 'symlist', 'tuple', 'fstr') or (
+                    other[0] == 'ref' and other[1] in ('fn', 'fnraw', 'cls', 'ext', 'builtin', 'extmod', 'pkgmod'))):
                 if c[1] is None or c[1] is Ellipsis or isinstance(c[1], (str, bool, int)):
                     if other[0] == 'tuple' and isinstance(c[1], tuple):
                         pass
@@ -1663,7 +1775,37 @@ class SymExec:
         self.emit('yield', e, value=v, handlers=self._handlers())
         return ('unknown', 'sent')
 
+    def _genexp_as_loop(self, ge, at):
+        """`(elt for x in it if c ...)` consumed in place, as statements:  for x in it: if c: yield elt"""
+        body: List[ast.stmt] = [ast.Expr(value=ast.Yield(value=ge.elt))]
+        for g in reversed(ge.generators):
+            if g.ifs:
+                test = g.ifs[0] if len(g.ifs) == 1 else ast.BoolOp(op=ast.And(), values=list(g.ifs))
+                body = [ast.If(test=test, body=body, orelse=[])]
+            body = [ast.For(target=g.target, iter=g.iter, body=body, orelse=[], type_comment=None)]
+        for b_ in body:
+            for n in ast.walk(b_):
+                if not hasattr(n, 'lineno'):
+                    ast.copy_location(n, at)
+            ast.fix_missing_locations(b_)
+        return body
+
     def ex_YieldFrom(self, e, fr):
+        if isinstance(e.value, ast.GeneratorExp) and not any(g.is_async for g in e.value.generators) \
+                and self.package_generator(e.value.generators[0].iter, fr) is not None:
+            self.exec_block(self._genexp_as_loop(e.value, e), fr)
+            return ('const', None)
+        if self.package_generator(e.value, fr) is not None:
+            # yield from gen(...)  ==  for v in gen(...): yield v
+            tmp = ast.Name(id='__yield_from_item', ctx=ast.Store())
+            loop = ast.For(target=tmp, iter=e.value, body=[ast.Expr(value=ast.Yield(value=ast.Name(id='__yield_from_item', ctx=ast.Load())))],
+                           orelse=[], type_comment=None)
+            for n in ast.walk(loop):
+                if not hasattr(n, 'lineno'):
+                    ast.copy_location(n, e)
+            ast.fix_missing_locations(loop)
+            self.exec_block([loop], fr)
+            return ('const', None)
         v = self.ev(e.value, fr)
         self.emit('yield', e, value=('star', freeze(v)), handlers=self._handlers())
         return ('unknown', 'sent')
@@ -1810,7 +1952,17 @@ class SymExec:
                 return None
             # iteration helpers over a known spine give a known spine (they are only ever consumed by loops here)
             if name == 'reversed' and len(args) == 1 and not kwargs and spine(args[0]) is not None:
-                return ListVal(list(reversed(spine(args[0]))), self.fresh())
+                return IterVal(list(reversed(spine(args[0]))), self.fresh())
+            if name == 'iter' and len(args) == 1 and not kwargs and spine(args[0]) is not None:
+                return IterVal(list(spine(args[0])), self.fresh())
+            if name == 'next' and 1 <= len(args) <= 2 and not kwargs and isinstance(args[0], IterVal):
+                if args[0].elts:
+                    return args[0].elts.pop(0)
+                if len(args) == 2:
+                    return args[1]
+                exc = ('call', self.fresh(), ('ref', 'builtin', 'StopIteration'), (), ())
+                self.emit('raise', node, exc=exc, implicit=True)
+                raise _Raise(exc, node)
             if name == 'range' and 1 <= len(args) <= 3 and not kwargs and all(
                     is_const(a) and isinstance(a[1], int) and not isinstance(a[1], bool) for a in fargs):
                 try:
@@ -2177,7 +2329,7 @@ def _is_static(node) -> bool:
     return _has_decorator(node, 'staticmethod')
 
 
-def _assigned_names(stmts) -> List[str]:
+def _assigned_names(stmts, env=None) -> List[str]:
     out = []
     for st in stmts:
         for n in [st] + list(_walk_no_nested(st)):
@@ -2195,7 +2347,11 @@ def _assigned_names(stmts) -> List[str]:
             for t in tgts:
                 for x in ast.walk(t):
                     if isinstance(x, ast.Name) and x.id not in out:
-                        out.append(x.id)
+                        if isinstance(x.ctx, ast.Store) or env is None or isinstance(env.get(x.id), (ListVal, DictVal)):
+                            # a name that is re-bound; or the base of a subscript/attribute store whose value is a container
+                            # the evaluator models (its contents change with every iteration).  A parameter or another plain
+                            # term that is merely written *through* keeps denoting the same object.
+                            out.append(x.id)
     return out
 
 
@@ -2206,3 +2362,36 @@ def paths_of(facts: Facts, qual: str, **kw) -> List[Path]:
 def closure_paths(facts: Facts, owner: FuncInfo, c: Closure, **kw) -> List[Path]:
     fi = FuncInfo(c.qual, c.module, c.node, cls=None)
     return SymExec(facts, fi, closure=c, **kw).run()
+
+
+def exec_module_body(F, m):
+    """Bindings a package module makes while it is imported: the module body is run once through the evaluator (classes and
+    imports are taken from the fact base; package decorators are applied, so registration decorators fill their tables).
+    Cached per fact base."""
+    cache = F.__dict__.setdefault('_module_env_cache', {})
+    if m.name in cache:
+        return cache[m.name]
+    cache[m.name] = {}            # re-entrancy guard
+    dummy = ast.parse('def __module_body__():\n    pass').body[0]
+    from .facts import FuncInfo
+    se = SymExec(F, FuncInfo(m.name + '.<module>', m, dummy))
+    se._reset([])
+    fr = Frame(m, m.name + '.<module>', None)
+    se.module_env[m.name] = fr.env
+    for st in m.tree.body:
+        try:
+            if isinstance(st, (ast.ClassDef, ast.Import, ast.ImportFrom)):
+                continue
+            if isinstance(st, ast.FunctionDef):
+                qual = m.name + '.' + st.name
+                if se.package_decorators(m, st):
+                    cur = ('ref', 'fnraw', qual)
+                    for d in reversed(se.package_decorators(m, st)):
+                        dec = se.ev(d, fr)
+                        cur = se.call(dec, [cur], [], d, fr)
+                continue
+            se.exec_stmt(st, fr)
+        except (Unrecognised, _Signal, _NeedMoreChoices):
+            continue
+    cache[m.name] = fr.env
+    return fr.env
